@@ -452,14 +452,18 @@ impl Run {
                 }
             }
             "refresh" => {
+                // `fail_read: k`: the next k reads of a pack fail during this refresh (transient backend error)
+                let fr = op.get("fail_read").and_then(|v| v.as_u64()).unwrap_or(0) as usize;
+                self.stores[r].lock().unwrap().fail_reads = fr;
                 let m = &mut self.reps[r].as_mut().unwrap().melda;
                 let out = call(pool, || m.refresh(), |_| Value::Null);
+                self.stores[r].lock().unwrap().fail_reads = 0;
                 let mut x = json!({});
                 if out.kind == "ok" {
                     let post = self.items_of(r);
                     x["fresh"] = self.fresh_obs(&post);
                 }
-                self.emit("Refresh", r, json!({}), &out, x);
+                self.emit("Refresh", r, json!({"fail_read": fr}), &out, x);
             }
             "reload" => {
                 let m = &self.reps[r].as_ref().unwrap().melda;
@@ -767,6 +771,10 @@ impl Run {
                     let out = Outcome { kind: "ok", msg: String::new(), val: Value::Null };
                     self.emit("Copy", r, json!({"s": rname(s), "key": tok(&k)}), &out, json!({}));
                     if op.get("refresh_each").and_then(|v| v.as_bool()).unwrap_or(true) {
+                        if k.ends_with(".pack") && op.get("flaky").and_then(|v| v.as_bool()).unwrap_or(false) {
+                            // the first read of the newly arrived pack fails; the refresh is then repeated
+                            self.exec(&json!({"op": "refresh", "r": r, "fail_read": 1}));
+                        }
                         self.exec(&json!({"op": "refresh", "r": r}));
                     }
                     if self.dead {
@@ -1321,7 +1329,7 @@ pub fn random_spec(run: u64, seed: u64, profile: &str) -> Value {
         ops.push(json!({"op": "unstage", "r": 0}));
         ops.push(json!({"op": "unstage", "r": 1}));
         ops.push(json!({"op": "sync", "r": 0, "s": 1}));
-        ops.push(json!({"op": "deliver", "r": 2, "s": 0, "perm": p.next() % 1_000_000_007, "refresh_each": true}));
+        ops.push(json!({"op": "deliver", "r": 2, "s": 0, "perm": p.next() % 1_000_000_007, "refresh_each": true, "flaky": p.chance(1, 3)}));
         ops.push(json!({"op": "reload", "r": 2}));
         ops.push(json!({"op": "sync", "r": 2, "s": 0}));
         return json!({"run": run, "replicas": 3, "pool": *p.pick(&[1usize, 2, 4, 16]), "ops": ops, "label": format!("random:{}:{}", profile, seed),
